@@ -89,7 +89,7 @@ func (e *Env) WriteEvidence(ev *Evidence) error {
 	ev.Tier = e.Tier
 	ev.Seed = int64(e.Seed)
 	ev.WallS = float64(int(time.Since(e.Start).Seconds()*10)) / 10
-	dir := filepath.Join(e.VerifDir, "evidence")
+	dir := getenv("VERIF_EVIDENCE_DIR", filepath.Join(e.VerifDir, "evidence"))
 	if err := os.MkdirAll(dir, 0o755); err != nil {
 		return err
 	}
@@ -127,7 +127,7 @@ func (e *Env) Report(engine string, prop string, vs []Violation) (exit int, unli
 		payload, _ := json.Marshal(v.Replay)
 		rf := ReplayFile{Property: prop, Engine: engine, Seed: e.Seed, Tier: e.Tier, Class: v.Class, Key: v.Key, Detail: v.Detail, Payload: payload}
 		b, _ := json.MarshalIndent(rf, "", " ")
-		dir := filepath.Join(e.VerifDir, "replays")
+		dir := getenv("VERIF_REPLAY_DIR", filepath.Join(e.VerifDir, "replays"))
 		_ = os.MkdirAll(dir, 0o755)
 		path := filepath.Join(dir, fmt.Sprintf("%s-%d-%d.json", prop, e.Seed, n))
 		if err := os.WriteFile(path, append(b, '\n'), 0o644); err != nil {
